@@ -186,3 +186,11 @@ Definition fmap {A} (l : list (path * A)) : path -> option A :=
   fun p => match find (fun x => fst x =? p) l with Some x => Some (snd x) | None => None end.
 Definition w_init (l : list (path * content)) : world :=
   mkW (map fst l) (fmap l) (fun _ => None) (fun _ => None) 0 0.
+
+(* A kill INSIDE remove_file_by_name: the real removal commits after every property link and every tag of its own
+   that it deletes, so the first k notes of the indexed page can be durably gone while the page row and the later
+   notes are still there and nothing of the new state has been committed. *)
+Definition partial_removal (p : path) (k : nat) (w : world) : world :=
+  mkW (universe w) (files w)
+      (upd (db w) p (match db w p with Some ip => Some (fst ip, skipn k (snd ip)) | None => None end))
+      (hashes w) (today w) (S (epoch w)).
